@@ -50,6 +50,7 @@ class LifeSocket:
 
     pending = []        # (datagram, sender address) still to be delivered to a listening socket of this run
     eager = False       # deliver pending datagrams without giving other threads a turn first
+    flood = None        # (datagram, sender) delivered whenever nothing else is pending
 
     def _recv(self):
         if self.closed:
@@ -63,6 +64,9 @@ class LifeSocket:
             s.yield_now()
         if LifeSocket.pending and self.bound is not None:
             return LifeSocket.pending.pop(0)
+        if LifeSocket.flood and self.bound is not None:
+            # steady traffic: there is ALWAYS another (stray, ignored) datagram, the receive never times out
+            return LifeSocket.flood
         raise socket.timeout("timed out")
 
     def recvmsg(self, *a):
@@ -103,6 +107,7 @@ def _run_once(case, preempt):
     busy = int(case.get("busy", 0))
     LifeSocket.pending = [(b"\x00\x01busy\x00octet\x00", ("::1", 40000, 0, 0))] if busy else []
     LifeSocket.eager = False
+    LifeSocket.flood = (b"\x00", ("::1", 40009, 0, 0)) if case.get("flood") else None
     names = case.get("datagrams") or []
     handled = []
     if names:
@@ -221,7 +226,7 @@ _steps_cache = {}
 
 
 def _total_steps(case):
-    key = json.dumps({k: case.get(k) for k in ("threads", "order", "busy", "datagrams")}, sort_keys=True)
+    key = json.dumps({k: case.get(k) for k in ("threads", "order", "busy", "datagrams", "flood")}, sort_keys=True)
     if key not in _steps_cache:
         _steps_cache[key] = _run_once(case, [])["steps"]
     return _steps_cache[key]
